@@ -834,6 +834,12 @@ func (s *State) applyFunction(name string, fn object.Object, args []object.Objec
 	}
 	// A function made by a call (a closure) is not looked up by its text: another one of the same text captures
 	// other variables, and so may a top level function of that text whose free names are globals.
+	// A name that became a global since results were remembered: a call that assigned it as its own local
+	// variable would now change the global instead, what it did then says nothing about what it does now.
+	if n := s.rootEnv.NumCreated(); n != s.cacheEpoch {
+		s.ResetCache()
+		s.cacheEpoch = n
+	}
 	closure := function.Env != nil && function.Env != s.rootEnv
 	if v, output, ok := s.cache.Get(memoKey, args); ok && !closure {
 		log.Debugf("Cache hit for %s %v -> %#v", function.CacheKey, args, v)
